@@ -1644,6 +1644,16 @@ func SelectStrategy(n *nfa.NFA, re *syntax.Regexp, literals *literal.Seq, config
 		return UseDigitPrefilter
 	}
 
+	// Word boundaries: the lazy DFA resolves \b / \B on unordered state sets, which loses
+	// the thread priority that leftmost-first semantics (the cut after a match) rely on:
+	// `\Bfoo.bar` on "foo barfooxbarfooxbar" ran through the first match [7 14] into the
+	// adjacent one and returned [14 21]. The reverse strategies already avoid such
+	// patterns; the forward DFA strategies below do too. PikeVM / BoundedBacktracker
+	// evaluate assertions exactly and still use the literal prefilter.
+	if hasWordBoundary(re) {
+		return UseNFA
+	}
+
 	// Small NFA (< 20 states): use pure DFA (no PikeVM verification).
 	// With tagged start states (Rust LazyStateID approach), DFA search handles
 	// prefilter correctly: start-tagged states always enter slow path for
